@@ -362,6 +362,25 @@ func checkC17(c C17Case, st *evid.Stats) error {
 		if !eqStrs(lines, want) {
 			return failf("value completion for %q offered %s, want exactly %s; %s", c.Last, q(lines), q(want), ctx)
 		}
+		// parser cross-check: every offered value is accepted for that option at that position
+		if ok {
+			ps := *c.Spec
+			ps.UnknownMode = UnkPass
+			for _, w := range want {
+				v := w
+				if c.Zsh {
+					v = strings.TrimPrefix(w, "--"+name+"=")
+				}
+				argv := append(append([]string{}, c.Earlier...), "--"+name+"="+v)
+				for j := 1; j < vo.Spec.Min; j++ {
+					argv = append(argv, v)
+				}
+				out := Run(&ps, argv, RunOpts{})
+				if out.ParseFailed && !out.IsParsing {
+					return failf("offered value %q is rejected by the parser: Parse(%s) = %q; %s", v, q(argv), out.ParseErr, ctx)
+				}
+			}
+		}
 		if len(want) >= 1 {
 			if st.NT(fmt.Sprintf("v|%s|%s|%v|%v", name, partial, want, c.Zsh)) {
 				st.Sample(map[string]interface{}{"comp_line": compLine, "shell": shell, "level": L.Path, "offered": lines})
